@@ -1,7 +1,7 @@
 \* generation: cases for the replay
 CONSTANTS
     UseEntries = {2, 3, 4, 5, 11}
-    PrioAlphabet = {"e/f", "a/x", "./a/c", "/"}
+    PrioAlphabet = {"e/f", "a/x", "/"}
     MaxTar = 3
     MaxPrio = 2
     WithLayout = FALSE
@@ -17,6 +17,7 @@ CONSTANTS
     DropInputLandmarks = TRUE
     LastDupWins = TRUE
     LandmarkOwnStream = TRUE
+    VisitingIsPath = TRUE
 INIT GenInit
 NEXT GenNext
 CHECK_DEADLOCK FALSE
